@@ -850,9 +850,14 @@ func genC14(c *Ctx) {
 				Note: fmt.Sprintf("Translate(nil, %q)", cod)})
 		}
 	}
+	firstRes := make([]string, 256) // what each byte gives the FIRST time it is asked (ascending order, nothing remembered yet)
 	for b := 0; b < 256; b++ {
 		var c3, name string
 		got := safe(func() string { c3, name = sequtil.AminoName(byte(b)); return hx([]byte(c3)) + " " + hx([]byte(name)) })
+		firstRes[b] = c3 + "/" + name
+		if got == "PANIC" {
+			firstRes[b] = "PANIC"
+		}
 		up := byte(b)
 		if up >= 'a' && up <= 'z' {
 			up -= 32
@@ -869,16 +874,18 @@ func genC14(c *Ctx) {
 	}
 	// every ordered pair of consecutive calls (a result must not depend on the call before it)
 	{
-		single := make([]string, 256)
-		for b := 0; b < 256; b++ {
-			single[b] = safe(func() string { c3, name := sequtil.AminoName(byte(b)); return c3 + "/" + name })
-		}
+		single := firstRes // not re-asked here: a second sweep would already see whatever the first one left behind
 		bad := ""
+		for b := 255; b >= 0 && bad == ""; b-- { // the same questions in descending order
+			if got := safe(func() string { c3, name := sequtil.AminoName(byte(b)); return c3 + "/" + name }); got != single[b] {
+				bad = fmt.Sprintf("AminoName(%d) asked again (after every byte value had been asked once) gives %q, the first time it gave %q", b, got, single[b])
+			}
+		}
 		for a := 0; a < 256 && bad == ""; a++ {
 			for b := 0; b < 256; b++ {
 				safe(func() string { sequtil.AminoName(byte(a)); return "" })
 				if got := safe(func() string { c3, name := sequtil.AminoName(byte(b)); return c3 + "/" + name }); got != single[b] {
-					bad = fmt.Sprintf("AminoName(%d) right after AminoName(%d) gives %q, alone it gives %q", b, a, got, single[b])
+					bad = fmt.Sprintf("AminoName(%d) right after AminoName(%d) gives %q, the first time it was asked it gave %q", b, a, got, single[b])
 					break
 				}
 			}
